@@ -48,7 +48,7 @@ def cases(tier: str) -> List[Any]:
                 out.append({"M": M, "K": K, "cfg": cfg, "k0": k0, "prefix": list(prefix)})
     # external events landing between two loop iterations (not only when the loop is idle)
     for cfg in ("A", "AN", "noneA", "end"):
-        for k0 in ("valid", "malformed_raw"):
+        for k0 in ("valid",) if tier == "quick" else ("valid", "malformed_raw"):
             for first in range(3):
                 out.append({"M": 2 if tier == "quick" else 3, "K": 4 if tier == "quick" else 5, "cfg": cfg, "k0": k0, "prefix": [first], "preempt": 1})
     return out
@@ -56,7 +56,7 @@ def cases(tier: str) -> List[Any]:
 
 def harness(c: sym.Ctx, case: Dict[str, Any]) -> None:
     M = case["M"]
-    kinds = [case["k0"]] + [c.choose(("valid", "unknown", "malformed_raw", "empty"), f"kind{k}") for k in range(1, M)]
+    kinds = [case["k0"]] + [c.choose(("valid", "unknown", "malformed_raw") if case["M"] <= 3 and not case.get("preempt") else ("valid", "malformed_raw", "empty"), f"kind{k}") for k in range(1, M)]
     cfg = case["cfg"]
     spec = {"M": M, "kinds": kinds, "outcomes": ["return"] * M, "A": "none" if cfg == "noneA" else "sym", "P": "sym",
             "N": "sym" if cfg == "AN" else "none", "wtt": None, "K": case["K"], "prefix": case["prefix"], "stream_end": cfg == "end", "preempt": case.get("preempt", 0)}
